@@ -202,6 +202,9 @@ class ExcelCompiler:
             else:
                 return a_cell.value
 
+        for key in ('cycles', 'excel_hash', 'cell_map', 'filename'):
+            # keep the order of the keys the same for every save
+            extra_data.pop(key, None)
         extra_data.update(dict(
             cycles=self.cycles,
             excel_hash=self._excel_file_md5_digest,
